@@ -443,6 +443,11 @@ def havoc_locs(it, locs):
         elif isinstance(loc, LocGhost):
             if loc.name == 'printed':
                 h.ghost['printed'] = z3.Const(st.fresh_name('hv_printed'), SeqVal)
+            elif loc.name in h.ghost and h.ghost[loc.name].sort() == Val and V.tagname(h.ghost[loc.name]) != 'i' \
+                    and str(h.ghost[loc.name]).startswith(('G0v_', 'ghostv_')):
+                h.ghost[loc.name] = z3.Const(st.fresh_name('ghostv_' + loc.name), Val)
+            elif loc.name == 'trace_fn':
+                h.ghost[loc.name] = z3.Const(st.fresh_name('ghostv_' + loc.name), Val)
             else:
                 h.ghost[loc.name] = Val.i(z3.Int(st.fresh_name('ghost_' + loc.name)))
 
@@ -456,7 +461,8 @@ def frame_obligations(it, before, after, locs, alloc_before, clause):
             continue
         prev = before.ghost.get(name)
         if prev is None:
-            prev = z3.Const('G0_' + name, val.sort()) if val.sort() != Val else Val.i(z3.Int('G0_' + name))
+            prev = z3.Const('G0_' + name, val.sort()) if val.sort() != Val else (
+                z3.Const('G0v_' + name, Val) if name == 'trace_fn' else Val.i(z3.Int('G0_' + name)))
         if not prev.eq(val):
             st.oblige(it.fn.qual, '%s[ghost:%s]' % (clause, name), 'frame', prev == val)
     keys = list(dict.fromkeys(list(before.arrs) + list(after.arrs)))
